@@ -40,7 +40,7 @@ fn write_num(buf: &mut [u8], pos: &mut usize, mut n: u64) {
 fn trip(request: u64, live: u64) -> ! {
     // name the allocation site: accounting is off from here on, the process exits below
     ENABLED.store(false, Ordering::Relaxed);
-    let bt = std::backtrace::Backtrace::force_capture().to_string();
+    let bt = if cfg!(miri) { String::new() } else { std::backtrace::Backtrace::force_capture().to_string() };
     let frame = crate::util::par::first_repo_frame(&bt);
     let site = format!("\nS {}\n", if frame.is_empty() { "?" } else { &frame });
     unsafe {
